@@ -241,6 +241,22 @@ class Puppet(object):
                 for r in self._emit(RawMsg(msg.contentType, data), rfb, uh):
                     yield r
             return
+        if kind == "straddle":
+            # the message followed, in the same record, by the first bytes
+            # of another handshake message; the puppet's own transcript
+            # covers the message only
+            if msg.contentType != ContentType.handshake:
+                raise NotQueueable("straddle")
+            data = bytearray(msg.write())
+            if uh:
+                self.conn._handshake_hash.update(data)
+            self.sent.append(token_of(msg))
+            self.sent.append("FRAG")
+            for r in self.orig_send(RawMsg(msg.contentType,
+                                           data + bytearray(act[1])),
+                                    rfb, False):
+                yield r
+            return
         raise ValueError(act)
 
     # -- queue path (TLS 1.3 server flight)
@@ -277,6 +293,12 @@ class Puppet(object):
         elif act[0] == "mutate":
             data = act[1](bytes(msg.write()))
             self._q(msg if data is None else RawMsg(msg.contentType, data))
+        elif act[0] == "straddle":
+            if msg.contentType != ContentType.handshake:
+                raise NotQueueable("straddle")
+            self._q(msg)
+            self.sent.append("FRAG")
+            self.conn._buffer += bytearray(act[1])
         else:
             raise ValueError(act)
         if held is not None:
